@@ -256,10 +256,10 @@ theorem openH_inv (m : Nat) (sub : Bytes) {hA hm : Hist} {link : Fd}
 is an even number (the procfs lookup of `thread-self/fd/<f>` returns object `f + 1`, which passes
 `fstatfs = PROC_SUPER_MAGIC` only if it is odd or the thread-self directory, and the latter cannot be read as a link),
 and the bytes are what `d_path` printed for it at the moment `t` of the `readlinkat`. -/
-theorem asUnsafePath_seq {ws : Nat → World} {i0 : Nat} {H : Hist} (hans : AnsSeq ws i0 H)
+theorem asUnsafePath_seq' {ws : Nat → World} {i0 : Nat} {H : Hist} (hans : AnsSeq ws i0 H)
     (hk : ∀ i, (ws i).kind threadSelf ≠ .lnk) (m : Nat) {f : Fd} {hA hB : Hist} {b : Bytes}
     (hr : Runs (Procfs.asUnsafePath (aenv m) f) hA hB (.ok b)) (hpre : hB <+: H) :
-    ∃ t, i0 ≤ t ∧ t < i0 + H.length ∧ f % 2 = 0 ∧
+    ∃ t, i0 ≤ t ∧ t < i0 + H.length ∧ 0 ≤ f ∧ f % 2 = 0 ∧
       b = match (ws t).dpath f with
           | some p => (ws t).render p
           | none => [0] := by
@@ -300,8 +300,19 @@ theorem asUnsafePath_seq {ws : Nat → World} {i0 : Nat} {H : Hist} (hans : AnsS
     · exact absurd hkk (hk _)
   · rcases answer_readlinkat _ _ _ _ hrl with ⟨_, hb⟩ | ⟨hno, _⟩
     · rw [hsub1] at hb
-      exact ⟨i0 + hm.length, by omega, by omega, hev, hb⟩
+      exact ⟨i0 + hm.length, by omega, by omega, h0, hev, hb⟩
     · exact absurd hodd hno
+
+/-- `asUnsafePath_seq'` without the sign of the descriptor -/
+theorem asUnsafePath_seq {ws : Nat → World} {i0 : Nat} {H : Hist} (hans : AnsSeq ws i0 H)
+    (hk : ∀ i, (ws i).kind threadSelf ≠ .lnk) (m : Nat) {f : Fd} {hA hB : Hist} {b : Bytes}
+    (hr : Runs (Procfs.asUnsafePath (aenv m) f) hA hB (.ok b)) (hpre : hB <+: H) :
+    ∃ t, i0 ≤ t ∧ t < i0 + H.length ∧ f % 2 = 0 ∧
+      b = match (ws t).dpath f with
+          | some p => (ws t).render p
+          | none => [0] := by
+  obtain ⟨t, a, b, _, c, d⟩ := asUnsafePath_seq' hans hk m hr hpre
+  exact ⟨t, a, b, c, d⟩
 
 /-- a prefix of a history answered by the moments is answered by the moments -/
 theorem AnsSeq.of_prefix {ws : Nat → World} {i0 : Nat} {H hm : Hist} (hans : AnsSeq ws i0 H) (hpre : hm <+: H) :
@@ -315,10 +326,10 @@ theorem AnsSeq.of_prefix {ws : Nat → World} {i0 : Nat} {H hm : Hist} (hans : A
 /-- **The emulated lookup as a sub-run of a history answered by the moments** (`hm`: everything up to and including the
 lookup, the first entry answered at moment `i0`; the lookup itself starts after `h`): a descriptor it returns refers to
 an object that was below the root at one of the moments of `hm`. -/
-theorem emulated_resolve_sub (ws : Nat → World) (root : Fd) (rc : List Bytes) (m : Nat)
+theorem emulated_resolve_sub' (ws : Nat → World) (root : Fd) (rc : List Bytes) (m : Nat)
     (ha : Attacker ws root rc m) (path : Bytes) (rflags : Nat) (nofollow : Bool) (i0 : Nat) {h hm : Hist} {fd : Fd}
     (hans : AnsSeq ws i0 hm) (hruns : Runs (Opath.resolve (aenv m) root path rflags nofollow) h hm (.ok fd)) :
-    ∃ i p, i0 ≤ i ∧ i < i0 + hm.length ∧ (ws i).dpath fd = some p := by
+    (0 ≤ fd ∧ fd % 2 = 0) ∧ ∃ i p, i0 ≤ i ∧ i < i0 + hm.length ∧ (ws i).dpath fd = some p := by
   obtain ⟨rd, hdup, hwf⟩ := emulated_checked _ _ _ _ _ hruns
   -- the walk's duplicate of the root is the root
   have hrd : rd = root := by
@@ -336,7 +347,8 @@ theorem emulated_resolve_sub (ws : Nat → World) (root : Fd) (rc : List Bytes) 
     obtain ⟨t1, _, _, _, e1⟩ := asUnsafePath_seq hans ha.threadSelf_kind m r1 pA
     rw [ha.root_path] at e1
     dsimp only at e1
-    obtain ⟨t, hta, htb, _, e2⟩ := asUnsafePath_seq hans ha.threadSelf_kind m r2 pB
+    obtain ⟨t, hta, htb, hnn, hev, e2⟩ := asUnsafePath_seq' hans ha.threadSelf_kind m r2 pB
+    refine ⟨⟨hnn, hev⟩, ?_⟩
     cases hd : (ws t).dpath fd with
     | some p => exact ⟨t, p, hta, htb, hd⟩
     | none =>
@@ -351,7 +363,15 @@ theorem emulated_resolve_sub (ws : Nat → World) (root : Fd) (rc : List Bytes) 
         Resp.fd fd)] <+: hm := ⟨t2, by rw [hH, htail]; simp⟩
     obtain ⟨hresp, hlt⟩ := ans_at hans rfl hopen
     have hfd : fd = rd := answer_openat_dot _ _ (tree_ne_fdDir ha.root_tree) _ _ _ hresp
-    exact ⟨i0 + h1.length, [], by omega, by omega, by rw [hfd]; exact ha.root_path _⟩
+    exact ⟨by rw [hfd]; exact ⟨tree_nonneg ha.root_tree, ha.root_tree.2⟩,
+      i0 + h1.length, [], by omega, by omega, by rw [hfd]; exact ha.root_path _⟩
+
+/-- `emulated_resolve_sub'` without the parity of the descriptor -/
+theorem emulated_resolve_sub (ws : Nat → World) (root : Fd) (rc : List Bytes) (m : Nat)
+    (ha : Attacker ws root rc m) (path : Bytes) (rflags : Nat) (nofollow : Bool) (i0 : Nat) {h hm : Hist} {fd : Fd}
+    (hans : AnsSeq ws i0 hm) (hruns : Runs (Opath.resolve (aenv m) root path rflags nofollow) h hm (.ok fd)) :
+    ∃ i p, i0 ≤ i ∧ i < i0 + hm.length ∧ (ws i).dpath fd = some p :=
+  (emulated_resolve_sub' ws root rc m ha path rflags nofollow i0 hans hruns).2
 
 /-- **The emulated lookup under an arbitrary attacker**: a descriptor it returns refers to an object that was below
 the root at some moment during the call. -/
